@@ -18,7 +18,7 @@ EXPLANATION = (
     "branch; C31.3 placeholder agreement: the writer substitutes b'' exactly in the block where it called value_store.put, after the hash was "
     "computed from the real data; the reader's in_value_store is `len(value) == 0` and falls back to the store only then; C31.4 missing bytes: "
     "ValueStore.get maps FileNotFoundError to (b'', False), FileCache.deserialize raises InvalidValueError for a missing file and "
-    "_deserialize_value maps it to (None, False)."
+    "_deserialize_value maps it to (None, False). C31.5 in record_value the offload test (value store configured and size >= threshold) dominates every `return value_hash`, so recording a value whose row exists also re-puts lost bytes."
 )
 
 DB = "redun/backends/db/__init__.py"
@@ -100,6 +100,27 @@ def run(ctx):
         if nn.kind == "stmt" and isinstance(nn.ast, ast.Return) and "value_store.get" in src(nn.ast):
             ok = ("value_row.in_value_store", True) in facts_at(c3, nn)
     r3.check(ok, f"{db.rel}:RedunBackendDb._get_value_data:fallback", "the value store is consulted for rows that are not placeholders", db.rel, gvd.lineno)
+
+    # ---- C31.5: a successful record_value always leaves the bytes readable ----
+    r5 = ctx.rule("C31.5", "every successful return of record_value is preceded by the offload decision (re-recording repairs lost bytes)", floor=1)
+    crv = CFG(rv)
+    pnode = crv.node_of(put)
+    tnode = next((n for n in crv.nodes if n.kind == "test" and isinstance(n.ast, ast.expr) and "value_store" in src(n.ast) and any(pnode in crv.reachable(e) for e in crv.edge_nodes(n, "T"))), None)
+    if tnode is None:
+        raise AnalysisError("record_value: offload test guarding value_store.put not found", "RedunBackendDb.record_value")
+    hash_assign = next((n for n in crv.nodes if n.kind == "stmt" and isinstance(n.ast, ast.Assign) and src(n.ast.targets[0]) == "value_hash"), None)
+    rets = [n for n in crv.nodes if n.kind == "stmt" and isinstance(n.ast, ast.Return) and n.ast.value is not None and src(n.ast.value) == "value_hash"]
+    if not rets or hash_assign is None:
+        raise AnalysisError("record_value: `return value_hash` not found", "RedunBackendDb.record_value")
+    for rn in rets:
+        r5.check(
+            crv.dominates(tnode, rn),
+            f"{db.rel}:RedunBackendDb.record_value:return@{'existing-row' if any('value_row' in f for f, t in facts_at(crv, rn) if t) else 'new-row'}",
+            f"`return value_hash` at line {rn.lineno} can be reached without evaluating `{src(tnode.ast)[:70]}`: for a value whose row exists but whose offloaded bytes were lost, "
+            "record_value reports success although value_store.put was skipped, so the value it just recorded reads back as absent (and stays absent on every re-run)",
+            db.rel,
+            rn.lineno,
+        )
 
     r4 = ctx.rule("C31.4", "missing bytes read as absent", floor=3)
     vs = repo.mod("redun/backends/value_store.py")
